@@ -287,15 +287,21 @@ def getCoordinates {α : Type} (g : Group α) (k : Int) (ct : Int) : Except ErrK
 /-! ### call histories: `get_graphic_data` fills the cache `_graphic_data` of a parsed group -/
 
 inductive Access
-  | whole              -- get_graphic_data(ct)
-  | nth (k : Int)      -- get_coordinates(k, ct)
+  | whole (ct : Int)              -- get_graphic_data(ct)
+  | nth (k : Int) (ct : Int)      -- get_coordinates(k, ct)
   deriving Repr, DecidableEq
+
+/-- the coordinate type an access asks for (2 / 3) -/
+def Access.ct : Access → Int
+  | .whole ct => ct
+  | .nth _ ct => ct
 
 inductive Obs (α : Type)
   | whole (gd : GData α)
   | nth (a : Annot α)
 
-/-- `get_graphic_data` with its side effect: a parsed group keeps what it decoded -/
+/-- `get_graphic_data` with its side effect: a parsed group decodes with the REQUESTED coordinate type (it does
+not know its own) and keeps the result under that key; once the cache is filled every other type is refused -/
 def getGraphicDataS {α : Type} (g : Group α) (ct : Int) : Except ErrKind (GData α × Group α) :=
   match g.cache with
   | some (t, gd) => if t = ct then .ok (gd, g) else .error .value
@@ -305,11 +311,11 @@ def getGraphicDataS {α : Type} (g : Group α) (ct : Int) : Except ErrKind (GDat
 
 /-- one access: its answer and the state of the object afterwards (an exception raised after the decoding
 has happened leaves the cache filled) -/
-def accessS {α : Type} (g : Group α) (ct : Int) : Access → Except ErrKind (Obs α) × Group α
-  | .whole => match getGraphicDataS g ct with
+def accessS {α : Type} (g : Group α) : Access → Except ErrKind (Obs α) × Group α
+  | .whole ct => match getGraphicDataS g ct with
     | .error e => (.error e, g)
     | .ok (gd, g') => (.ok (.whole gd), g')
-  | .nth k => match coordIndex k with
+  | .nth k ct => match coordIndex k with
     | .error e => (.error e, g)
     | .ok i => match getGraphicDataS g ct with
       | .error e => (.error e, g)
@@ -320,9 +326,9 @@ def accessS {α : Type} (g : Group α) (ct : Int) : Access → Except ErrKind (O
           | none => (.error .index, g')
 
 /-- the answers of a sequence of accesses on one object -/
-def runHistory {α : Type} (g : Group α) (ct : Int) : List Access → List (Except ErrKind (Obs α))
+def runHistory {α : Type} (g : Group α) : List Access → List (Except ErrKind (Obs α))
   | [] => []
-  | a :: rest => (accessS g ct a).1 :: runHistory (accessS g ct a).2 ct rest
+  | a :: rest => (accessS g a).1 :: runHistory (accessS g a).2 rest
 
 /-! ### measurements: `none` is NaN -/
 
